@@ -10,6 +10,8 @@ use std::sync::atomic::{AtomicUsize, Ordering};
 pub struct CapAlloc;
 
 pub static CAP: AtomicUsize = AtomicUsize::new(usize::MAX);
+/// libFuzzer targets: raise SIGABRT instead of exiting, so that the fuzzer saves the input as an artifact
+pub static ABORT_ON_VIOLATION: std::sync::atomic::AtomicBool = std::sync::atomic::AtomicBool::new(false);
 
 thread_local! {
     static BYPASS: Cell<bool> = const { Cell::new(false) };
@@ -25,6 +27,9 @@ fn violation(size: usize) -> ! {
     let msg = format!("ALLOC-VIOLATION size={size} cap={} entry={entry}\n{bt}\nEND-ALLOC-VIOLATION\n", CAP.load(Ordering::Relaxed));
     unsafe {
         libc::write(2, msg.as_ptr() as *const libc::c_void, msg.len());
+        if ABORT_ON_VIOLATION.load(Ordering::Relaxed) {
+            libc::abort();
+        }
         libc::_exit(86);
     }
 }
